@@ -547,8 +547,12 @@ class RefBuild:
             return False
         v = m.evaluate(X)
         if v is FAIL:
-            # cannot happen when all requests succeeded; treat as machinery inconsistency
-            raise AssertionError("model inconsistency: evaluate(%s) failed after successful deps" % X)
+            # only possible in cyclic graphs (a dependency was answered "clean" from inside its own build);
+            # a from-scratch build cannot succeed there, so neither can this one
+            m.failed[X] = True
+            self.done[X] = "fail"
+            self.inconsistent = True
+            return False
         dg = hashlib.sha1(v.encode()).hexdigest()
         changed = True
         if spec.kind == "csum" and m.kind_at_build.get(X) == "csum" and m.built.get(X) and m.digest.get(X) == dg:
